@@ -43,22 +43,24 @@ AGES = {"400ms": 400, "fresh": 5_000, "15s-1": 14_999, "15s": 15_000, "15s+1": 1
 def grid(tier: str) -> List[Dict[str, Any]]:
     pts = []
     ages = list(AGES)
-    for q, probe, id_, port, fam, age, socks in itertools.product(
-            QUESTIONS, (False, True), (0, 0x1234), (5353, 1234), ("v4", "v6"), ages, ("single", "dual")):
-        if fam == "v6" and socks == "single":
+    modes = ("single", "dual", "single6")
+    jitters = (0.0,) if tier == "quick" else (0.0, 1.0)
+    for q, probe, id_, port, fam, age, socks, jit in itertools.product(
+            QUESTIONS, (False, True), (0, 0x1234), (5353, 1234), ("v4", "v6"), ages, modes, jitters):
+        if (fam == "v6") != (socks == "single6") and socks != "dual":
             continue
         if age.endswith("+1") and port == 5353 and socks == "single" and id_ == 0 and any(qu for _, _, qu in QUESTIONS[q]):
             # the same QU query (byte-identical, same source) already arrived 800 ms earlier, before the quarter-TTL boundary
             pts.append({"q": q, "probe": probe, "id": id_, "port": port, "fam": fam, "age": age, "socks": socks,
-                        "pre_copy_ms": 800})
+                        "pre_copy_ms": 800, "jitter": jit})
 
-        pts.append({"q": q, "probe": probe, "id": id_, "port": port, "fam": fam, "age": age, "socks": socks})
+        pts.append({"q": q, "probe": probe, "id": id_, "port": port, "fam": fam, "age": age, "socks": socks, "jitter": jit})
     return pts
 
 
 def run_point(p: Dict[str, Any], verbose: bool = False) -> Tuple[Optional[Dict[str, Any]], str, int]:
     problems: List[str] = []
-    with World(rand=RandPolicy.const(0.0)) as w:
+    with World(rand=RandPolicy.const(p.get("jitter", 0.0))) as w:
         host = w.new_zeroconf(mode=p["socks"])
         peer = Peer(w)
         from .c12 import Seen, key as seen_key
@@ -77,7 +79,7 @@ def run_point(p: Dict[str, Any], verbose: bool = False) -> Tuple[Optional[Dict[s
         src_ip = "fe80::99" if v6 else "10.0.0.99"
         # which socket receives: multicast queries arrive on the listen socket (dual) / the only socket (single);
         # legacy unicast queries are sent to the host's own address, i.e. a respond socket
-        if p["socks"] == "single":
+        if p["socks"] in ("single", "single6"):
             rx = host.transports()[0]
         elif p["port"] != 5353:
             rx = [t for t in host.transports() if t.sock.role == "respond" and
@@ -225,7 +227,7 @@ def run_point(p: Dict[str, Any], verbose: bool = False) -> Tuple[Optional[Dict[s
         allowed_any = want_now | want_any | {nsec_key(i) for i in mc_now_maybe}
         if not got_any <= allowed_any:
             problems.append(f"multicast: unexpected answers {sorted(got_any - allowed_any, key=repr)}")
-        n_send = 1 if p["socks"] == "single" else 2
+        n_send = 1 if p["socks"] in ("single", "single6") else 2
         for d in mcasts:
             m = d.msg
             if m.id != 0 or (m.flags & ~0x0200) != 0x8400 or m.questions:
